@@ -236,6 +236,9 @@ def run_proof(built, proof, workdir, extra_defs=(), trace=False):
         return res
     for o in obl:
         sl = o.get('sourceLocation', {})
+        if o.get('description') == 'assertion' and not sl.get('file') and '_wrapped_for_contract_checking.' in (o.get('property') or ''):
+            # dfcc checks the invariant of a loop whose head is its body (for(;;)) at the back edge and gives the assertion no text
+            o = dict(o, description='loop invariant of a for(;;) loop (checked by dfcc at the back edge: base case after the first pass, step case after an arbitrary one)')
         rec = {'id': o.get('property'), 'desc': o.get('description'), 'status': o.get('status'),
                'file': sl.get('file'), 'line': sl.get('line'), 'function': sl.get('function')}
         if trace and o.get('status') == 'FAILURE' and 'trace' in o:
